@@ -95,7 +95,8 @@ def run(ctx, factor):
         stems = ["a_first", "z_second"] if (g.chance(0.5) and not two_files) else ["z_first", "a_second"]
         mpaths = []
         for f, stem in zip(files, stems):
-            mp = os.path.join(sc.dir, "%s_%d.macros.yaml" % (stem, it))
+            # file names may contain characters a shell or glob() would treat specially: they are names, nothing else
+            mp = os.path.join(sc.dir, "%s_%d%s.macros.yaml" % (stem, it, g.pick(["", "", "[att]", "[x86]", "*", "?"])))
             with open(mp, "w") as fh:
                 fh.write(impl.dump_yaml(f))
             mpaths.append(mp)
@@ -146,6 +147,8 @@ def run(ctx, factor):
         ("missing input", ["-p", rule_path, "-s", os.path.join(sc.dir, "nope.s")]),
         ("missing rule", ["-p", os.path.join(sc.dir, "nope.yaml"), "-s", in_path]),
         ("non-object binary", ["-p", rule_path, "-b", notobj]),
+        ("missing macro file", ["-p", rule_path, "-s", in_path, "--macros", os.path.join(sc.dir, "no_such_macros.yaml")]),
+        ("missing macro file among two", ["-p", rule_path, "-s", in_path, "--macros", os.path.join(sc.dir, "nope[1].yaml"), os.path.join(sc.dir, "nope2.yaml")]),
     ]:
         c = cli(ctx, args, cwd)
         tie_args(ctx, args, {"argv": args})
